@@ -99,6 +99,17 @@ func sharingConfigs(env *engine.Env) []fixture.Doc {
 		d["ipk"] = map[string]any{"predepends": []any{"pre >= 1"}, "tags": []any{"t 1", "t 2"}}
 		d["rpm"] = map[string]any{"buildhost": "buildhost.example", "prefixes": []any{"/usr", "/opt"}}
 	}))
+	// relation lists with equal neighbours; ipk fields that duplicate regular control fields (the packager strips them)
+	docs = append(docs, mk(plain, func(d fixture.Doc) {
+		d["depends"] = []any{"libfoo", "libfoo", "libbar", "libbar"}
+		d["provides"] = []any{"virt", "virt"}
+		d["conflicts"] = []any{"enemy", "enemy", "other"}
+		d["replaces"] = []any{"old", "old"}
+		d["ipk"] = map[string]any{"fields": map[string]any{"Maintainer": "someone else", "Package": "x", "Architecture": "y", "Custom": "kept"}}
+		d["deb"] = map[string]any{"fields": map[string]any{"Maintainer": "dup", "Custom": "kept"}}
+	}))
+	// a platform other than linux (deb, rpm and ipk take one)
+	docs = append(docs, mk(plain, func(d fixture.Doc) { d["platform"] = "freebsd"; d["arch"] = "arm64" }))
 	// everything together
 	all := mk(append(append([]model.Entry{}, partial...), tagged[1:]...), func(d fixture.Doc) {
 		d["overrides"] = map[string]any{"deb": map[string]any{"umask": 0o077, "depends": []any{"only-deb"}}, "rpm": map[string]any{"rpm": map[string]any{"signature": map[string]any{"key_id": "cccc3333"}}}}
@@ -114,7 +125,7 @@ func init() {
 	engine.Register(&engine.Prop{
 		ID:    "C12",
 		Level: "model_checking",
-		Rule: "scenarios = sharing-oriented configurations x {S1: one parsed configuration, the threads package different formats (all 10 pairs; thorough: all 10 triples); S2: independently parsed configurations, any two formats incl. the same one twice (15 pairs)}; " +
+		Rule: "scenarios = sharing-oriented configurations x {S1: one parsed configuration, each thread obtains its own settings and packages a format (all 15 pairs incl. the same format twice; thorough: all 10 triples); S2: independently parsed configurations, any two formats incl. the same one twice (15 pairs)}; " +
 			"for each scenario every schedule with at most 2 (thorough 3) preemptions is executed on the woven copy of the code under a cooperative scheduler whose switch points are the accesses to contended shared memory and the synchronisation operations; " +
 			"per execution: happens-before race detection over every woven memory access, outputs byte-compared with the sequential baseline, no panic, no deadlock; the default schedule is replayed twice (determinism guard); " +
 			"plus a free-running pass of the same bodies on the unwoven code under Go's race detector; non-trivial = the threads performed shared accesses; distinct = distinct (scenario, set of outputs, races)",
@@ -135,7 +146,8 @@ func init() {
 			n := len(sharingConfigs(env))
 			for ci := 0; ci < n; ci++ {
 				for i, a := range Formats {
-					for _, b := range Formats[i+1:] {
+					// incl. the same format twice: each thread obtains its own settings from the one parsed configuration
+					for _, b := range Formats[i:] {
 						if !yield(C12Case{Config: ci, Mode: "S1", Formats: []string{a, b}}) {
 							return
 						}
@@ -166,7 +178,7 @@ func init() {
 			}
 			{
 				for ci := 0; ci < n; ci++ {
-					if !env.Thorough() && ci != 1 && ci != n-3 && ci != n-1 {
+					if !env.Thorough() && ci != 1 && ci != 11 && ci != n-1 {
 						continue // quick: three configurations (partial file_info, every content type, everything)
 					}
 					for i := range Formats {
